@@ -111,6 +111,10 @@ func runClone(hdr Header, c any, src string) CaseResult {
 	if err != nil || !bytes.Equal(cb, before) {
 		return fail("clone-differs", string(before), string(cb))
 	}
+	// equal in every field, including which slices and maps are nil and which are empty
+	if do, dc := dump(orig), dump(clone); do != dc {
+		return fail("clone-differs", do, dc)
+	}
 	// both under one parent still resolve (the tree check of Resolve)
 	parent := &jsonschema.Schema{AllOf: []*jsonschema.Schema{orig, clone}}
 	if _, rerr := (&jsonschema.Schema{AllOf: []*jsonschema.Schema{schemaGo(cm["s"])}}).Resolve(nil); rerr == nil {
